@@ -17,6 +17,7 @@ const (
 	CertForged      CertMode = "forged"
 	CertWrongHash   CertMode = "wrong-hash"
 	CertDuplicated  CertMode = "duplicated-vote"
+	CertValidAll    CertMode = "valid-all" // like valid, signed by every approved committee member instead of a bare quorum
 )
 
 // MakeCert builds a certificate for blk on top of r's current head (r must not
@@ -88,7 +89,11 @@ func (w *World) MakeCert(r *Replica, blk *types.Block, mode CertMode) *types.Blo
 			sign(&Actor{Key: k, Addr: crypto.PubkeyToAddress(k.PublicKey)})
 		}
 	default:
-		for i := 0; i < need && i < len(voters); i++ {
+		n := need
+		if mode == CertValidAll {
+			n = len(voters) // every approved member of the committee signs
+		}
+		for i := 0; i < n && i < len(voters); i++ {
 			sign(voters[i])
 		}
 		if len(votes) < need {
